@@ -84,6 +84,20 @@ func (r *validationResponseHandler) HandleValidationResponse(
 		// RFC 9111 §4.3.3 Handling Validation Responses (304 Not Modified)
 		// RFC 9111 §4.3.4 Freshening Stored Responses upon Validation
 		updateStoredHeaders(ctx.Stored.Data, resp)
+		if r.rs != nil {
+			// Write the freshened response back: updated header fields, unchanged
+			// body, and the request/response times of this exchange, so that its
+			// age restarts here.
+			_ = r.rs.StoreResponse(
+				req,
+				ctx.Stored.Data,
+				ctx.URLKey,
+				ctx.Refs,
+				ctx.Start,
+				ctx.End,
+				ctx.RefIndex,
+			)
+		}
 		CacheStatusRevalidated.ApplyTo(ctx.Stored.Data.Header)
 		r.l.LogCacheRevalidated(req, ctx.URLKey, ctx.ToMisc(nil))
 		return ctx.Stored.Data, nil
